@@ -313,6 +313,9 @@ class ForceMatrix:
             warnings.warn(f"Numerically solving due to the following error: {e}")
             xres, _ = scop.nnls(mprime, b, maxiter=kwargs.get("nnls_max_iter"))
 
+        # lmfit switches numpy's error state to 'ignore' and does not restore it when it raises
+        np.seterr(all='raise')
+
         if kwargs.get("verbose", False):
             print("Residuals ||AX - B||: ", np.linalg.norm(mprime @ xres - b))
 
